@@ -328,3 +328,67 @@ contract(P + '_parse_parameter', params={'self': 'GIRParser', 'node': 'Element'}
          ensures=dict([('C07.roundtrip.param.%s' % k, '%s == %s' % (v.replace('parameter', 'result'), v)) for k, v in EMITS.items()]
                       + [('C07.roundtrip.param.model.direction', "result.direction == (parameter.direction if parameter.direction is not None else 'in')"),
                          ('C07.roundtrip.param.model.optional', "result.optional == bool(parameter.optional)")]))
+
+
+# ---- reader of <array> / <type> / <varargs> / <callback> elements -----------------------------------------------------------
+inline('giscanner.girparser._cns', 'giscanner.girparser._glibns')
+CNS = '{http://www.gtk.org/introspection/c/1.0}'
+contract('giscanner.ast.Namespace.type_from_name', params={'self': 'Namespace', 'name': 'str', 'ctype': 'str?'}, returns='Type',
+         fresh_result=True, trusted=True, ensures={'ctype': 'result.ctype == ctype'},
+         note='a fundamental type, or a type targeting the (namespace-qualified) name')
+contract(P + '_find_first_child', params={'self': 'GIRParser', 'node': 'Element', 'name_or_names': 'any'}, returns='Element?',
+         trusted=True)
+contract(P + '_find_children', params={'self': 'GIRParser', 'node': 'Element', 'name': 'str'}, returns='ElementList', trusted=True)
+
+
+def array_of(typenode, result):
+    """the array described by an <array> element: kind, C type, fixed size, and zero-termination with the Python reader's
+    default (zero-terminated unless the attribute says "0")"""
+    a = typenode.attrib
+    return isinstance(result, ast.Array) and result.array_type == (a.get('name') if a.get('name') is not None else '<c>') \
+        and result.ctype == a.get(CNS + 'type') \
+        and result.zeroterminated == (a.get('zero-terminated') != '0' or not a.get('zero-terminated')) \
+        and (not a.get('fixed-size') or result.size is not None)
+
+
+contract(P + '_parse_type_simple', params={'self': 'GIRParser', 'typenode': 'Element'}, returns='Type', props=('C07',),
+         requires=['self._namespace is not None'],
+         modifies=[],
+         raises={'AssertionError': 'True', 'KeyError': 'True', 'ValueError': 'True'},
+         loops={1: {'invariant': ['is_fresh(subchildren_types)'], 'modifies': ['subchildren_types[]'],
+                    'var_types': {'subchildren_types': 'list[Type]'}}},
+         ensures={
+             'C07.read.type.array': "implies(typenode.tag == CORE + 'array', array_of(typenode, result))",
+             'C07.read.type.array_fixed_size': "implies(typenode.tag == CORE + 'array' and typenode.attrib.get('fixed-size'), "
+                                               "str(result.size) == typenode.attrib.get('fixed-size'))",
+             'C07.read.type.varargs': "implies(typenode.tag == CORE + 'varargs', isinstance(result, ast.Varargs))",
+             'C07.read.type.unnamed': "implies(typenode.tag == CORE + 'type' and typenode.attrib.get('name') is None, "
+                                      "result.ctype == typenode.attrib.get(CNS + 'type') and "
+                                      "(isinstance(result, ast.TypeUnknown) == (typenode.attrib.get(CNS + 'type') is None)))",
+             'C07.read.type.lists_and_maps': "implies(typenode.tag == CORE + 'type' and typenode.attrib.get('name') in ('GLib.List', 'GLib.SList'), "
+                                             "isinstance(result, ast.List) and result.name == typenode.attrib.get('name')) and "
+                                             "implies(typenode.tag == CORE + 'type' and typenode.attrib.get('name') == 'GLib.HashTable', "
+                                             "isinstance(result, ast.Map))",
+         })
+
+contract(P + '_parse_type_array_length', params={'self': 'GIRParser', 'siblings': 'list[Parameter|Field]', 'node': 'Element',
+                                                 'typeval': 'Type'}, props=('C07',),
+         modifies=['typeval.length_param_name'], raises={'AssertionError': 'True', 'ValueError': 'True', 'IndexError': 'True'},
+         let={'arr': "node.find(CORE + 'array')"},
+         ensures={
+             'C07.read.array.length_index_names_the_sibling':
+                 "implies(arr is not None and arr.attrib.get('length') is not None and "
+                 "str(int_of(arr.attrib.get('length'))) == arr.attrib.get('length') and 0 <= int_of(arr.attrib.get('length')), "
+                 "typeval.length_param_name == sibling_name(siblings[int_of(arr.attrib.get('length'))]))",
+             'C07.read.array.no_length_no_change':
+                 "implies((arr is None or arr.attrib.get('length') is None) and isinstance(typeval, ast.Array), "
+                 "typeval.length_param_name == old(typeval.length_param_name))",
+         })
+
+
+def sibling_name(s):
+    return s.name if isinstance(s, ast.Field) else s.argname
+
+
+def int_of(s):
+    return int(s)
